@@ -80,7 +80,88 @@ def vectors(nkeys=3):
     return out
 
 
+# ---------------------------------------------------------------------------------------------------------------
+# The same for the first message of a secret stream (XChaCha20-Poly1305, libsodium's secretstream layout):
+#   MAC input = pad16(ad) || [tag, 0 x 63] XOR keystream block 1 || c || pad || le64(adlen) || le64(64 + mlen)
+# with the one-time key = keystream block 0 [..32] and c = m XOR keystream blocks 2.. .  With mlen a multiple of 16 there
+# is no padding; one ciphertext block is solved so that the accumulator reaches the target either right after that block
+# ("mid") or at the very end of the MAC ("final": the accumulator is affine in the solved block).
+def stream_craft(key, header, mlen, j, target, where):
+    assert mlen % 16 == 0 and 0 <= j < mlen // 16
+    k = ref.hchacha20(key, header[:16])
+    nonce = (1).to_bytes(4, "little") + header[16:24]
+    poly = ref.chacha20_block(k, 0, nonce)[:32]
+    r = int.from_bytes(poly[:16], "little") & 0x0ffffffc0ffffffc0ffffffc0fffffff
+    s = int.from_bytes(poly[16:32], "little")
+    if r == 0:
+        return None
+    tag = 0
+    blk = bytes(a ^ b for a, b in zip(bytes([tag]) + bytes(63), ref.chacha20_block(k, 1, nonce)))
+    ks = b"".join(ref.chacha20_block(k, 2 + i, nonce) for i in range((mlen + 63) // 64))[:mlen]
+    lens = (0).to_bytes(8, "little") + (64 + mlen).to_bytes(8, "little")
+    nblk = mlen // 16
+    c = [det(16, "sc%d/%d" % (mlen, i)) for i in range(nblk)]
+    acc = lambda h, b: ((h + int.from_bytes(b + b"\x01", "little")) * r) % P
+    h = 0
+    for i in range(4):
+        h = acc(h, blk[16 * i:16 * i + 16])
+    for i in range(j):
+        h = acc(h, c[i])
+    rinv = pow(r, P - 2, P)
+    if where == "mid":
+        n = (target * rinv - h - (1 << 128)) % P
+    else:
+        # blocks after the solved one: c[j+1..], then the length block; h_final = A * x + B with x = h + n + 2^128
+        rest = c[j + 1:] + [lens]
+        A, B = r, 0
+        for b in rest:
+            v = int.from_bytes(b + b"\x01", "little")
+            A, B = (A * r) % P, ((B + v) * r) % P
+        x = ((target - B) * pow(A, P - 2, P)) % P
+        n = (x - h - (1 << 128)) % P
+    if n >= 1 << 128:
+        return None
+    c[j] = n.to_bytes(16, "little")
+    hh = h
+    for i in range(j, nblk):
+        hh = acc(hh, c[i])
+        if where == "mid" and i == j:
+            assert hh == target % P
+    hh = acc(hh, lens)
+    if where == "final":
+        assert hh == target % P
+    mac = ((hh + s) & ((1 << 128) - 1)).to_bytes(16, "little")
+    cbytes = b"".join(c)
+    msg = bytes(a ^ b for a, b in zip(cbytes, ks))
+    wire = bytes([blk[0]]) + cbytes + mac
+    return msg, wire
+
+
+def stream_vectors(nkeys=2):
+    out = []
+    for ki in range(nkeys):
+        key = det(32, "psk%d" % ki)
+        for tname, tv in sorted(targets().items()):
+            done = 0
+            for attempt in range(60):
+                header = det(24, "psh%d/%s/%d" % (ki, tname, attempt))
+                mlen = [16, 32, 48, 64, 80][attempt % 5]
+                j = attempt % (mlen // 16)
+                where = "final" if attempt % 2 == 0 else "mid"
+                r = stream_craft(key, header, mlen, j, tv, where)
+                if r is None:
+                    continue
+                msg, wire = r
+                out.append({"key": list(key), "header": list(header), "msg": list(msg), "wire": list(wire), "target": tname, "where": where, "mlen": mlen, "block": j})
+                done += 1
+                if done >= 3:
+                    break
+    return out
+
+
 if __name__ == "__main__":
+    sv = stream_vectors()
+    print("stream vectors", len(sv))
     v = vectors()
     import collections
     print(len(v), collections.Counter(x["target"] for x in v).most_common(5))
